@@ -49,6 +49,14 @@ def run_case(ctx, case, versions):
                 if idx >> j & 1:
                     w |= b
             words.append(w)
+        # IntFlag caches a pseudo-member for every composite value it has seen, and enum._decompose
+        # scans that cache: in one long-lived process the enumeration becomes quadratic (measured on
+        # 3.7: 1 ms/word at the start, 6.6 ms/word after 260k words).  Each slice therefore starts in
+        # a fresh worker process; the generated (non-enumerated) batches keep the long-lived worker,
+        # so state that leaks between conversions stays observable there.
+        for v in versions:
+            if v in ctx.pool.workers:
+                ctx.pool.workers[v].restart()
         res = ctx.pool.call("c11_flags", {"words": words}, versions, budget=600)
         for v, r in res.items():
             ctx.extra["flag_words"] = ctx.extra.get("flag_words", 0) + (r.get("features") or {}).get("words", 0)
